@@ -1585,6 +1585,16 @@ class SpaceUpdater(SharedSpaceOperations):
         bases = self._get_space_bases(space, self._graph)
         space.on_inherit(self, bases, 'own_refs')
 
+    def _execute_or_restore(self, node):
+        """Execute instructions. Restore derived members upon failure"""
+        try:
+            self._instructions.execute()
+        except BaseException:
+            # Derive members again from the graph before the change
+            self.manager.update_subs(
+                self.manager._graph.to_space(node), skip_self=False)
+            raise
+
     def _remove_hook(self, graph, node):
 
         parent_node, name = split_node(node)
@@ -1753,7 +1763,7 @@ class SpaceUpdater(SharedSpaceOperations):
             self._instructions.append(
                 Instruction(self._update_derived_space, (v,)))
 
-        self._instructions.execute()
+        self._execute_or_restore(node)
         self._update_manager()
 
     def remove_bases(self, space, bases):
@@ -1776,7 +1786,7 @@ class SpaceUpdater(SharedSpaceOperations):
                 Instruction(self._update_derived_space, (v,))
             )
 
-        self._instructions.execute()
+        self._execute_or_restore(node)
         self._update_manager()
 
     def del_defined_space(self, space):
